@@ -36,28 +36,36 @@ func init() {
 			"durations n*100ms (dense to 5.5h plus log-uniform to 200 years, both signs, through DurationType and AbsoluteOrRelativeTimeType), instants with whole seconds in years 1-9999 (a fifth in non-UTC zones), " +
 			"explicit boundary durations (every whole day to 3300 d, every whole hour to 3300 h, 7/30/365-day multiples to 200 y, each +-100 ms, both signs), " +
 			"a fixed table of hand-written xs:duration texts plus generated non-canonical spellings (seconds only, minutes+seconds, unnormalised fields, zero fields, leading zeros) through DurationType, AbsoluteOrRelativeTimeType and {\"endTime\":...} JSON, " +
-			"time periods with a relative end time of either sign through JSON, a sample of them read again after >= 1.5 s. A case is one block; it is non-trivial if at least 1000 conversions were compared; distinct = distinct (part, digits/decade/sign class) descriptors.",
+			"time periods with a relative end time of either sign through JSON, a sample of them read again after >= 1.5 s. " +
+			"Placed inputs (c19_landmarks.go) next to the drawn ones: decimals at k = 10^p+-j, m*10^p+-1, 2^q+-1 and digit-string prefixes for every d, decimals with 1-15 digits over all magnitudes below 10^14, " +
+			"each also in representations other than the library's (zeros appended or stripped, positive scale, no scale) through GetValue; floats as the cross product of integer-part patterns (0, 9..9, 10^p, d9..9, d0..0, random; 1-14 digits) x " +
+			"patterns of the first four decimals (9999, 0000, x999, xx00, ...) x patterns of the digits behind them (none, 4, 5, 6, 49.., 50..1, 9.., random), both signs, plus the doubles within 2 ulp of m*10^p +- {0, 0.00005, 0.0001, 0.00015} and the ends of the domain; " +
+			"instants at landmarks (both ends of years 1-9999, the zero value of time.Time, unix-second landmarks, years of every width, month/february/year ends, ends of every clock field) each -1 s, exact, +1 s in nine zones, instants carrying a monotonic reading, " +
+			"and instants written by the harness with a fraction of zeros; relative end times of 0, around every field boundary of the text, and not whole seconds. A case is one block; it is non-trivial if at least 1000 conversions were compared; distinct = distinct (part, digits/decade/sign class) descriptors.",
 		Assumptions: []string{
 			"'the same number' for a decimal k*10^-d (d<=4, |k|<=5*10^7) is the double nearest to that decimal, i.e. the input itself: GetValue() must be == v (the 0.0001 tolerance of the statement belongs to its second clause, arbitrary numbers below 10^14); a difference only in the last binary digits gets the signature decimal/not-the-same-double, a difference at the fourth decimal decimal/declared-precision",
 			"a relative end time moves with the wall clock: the remaining duration read back must lie within 1 s of d minus the wall time that passed, bracketed by the harness's own clock readings; a disagreement of wall and monotonic clock over the case makes the delayed read inconclusive",
 			"the SPINE textual form of a duration is an xs:duration (PnYnMnDTnHnMnS: no week designator, 'T' only before at least one time field); a text that uses years or months has no decided length and does not denote a duration below 3277 days",
 			"the SPINE textual form of an instant is an xs:dateTime with a zone designator (Z or +-hh:mm); a text without one does not denote an instant",
 			"the value of P1M / P1Y (calendar units) is not decided by the statement: observed, not judged",
+			"a scaled number is the pair (number, scale) and denotes number*10^scale: the harness evaluates the pair the library produced by itself (strconv), besides asking GetValue(), and feeds GetValue() equivalent pairs the library would not produce (what a peer may send); both must give the number",
+			"an instant written as xs:dateTime with 'Z' and a fraction of zeros (…:05.000Z) is the same instant as without the fraction: such texts are read through GetTime() and judged; texts with a numeric zone offset or without zone designator, and instants outside the years 1-9999 (the lexical range of xs:dateTime 1.0 and of the four-digit year), are read and recorded, not judged",
+			"a relative end time that is not a whole number of seconds passes one more rounding (the end time is an instant with whole seconds): its lower bound is one second lower",
 			"durations >= 3277 days are the known-finding class D27; the signature duration/>=3277d/imprecise is given ONLY to the deviation recorded at design time (minutes and seconds dropped, whole days re-expressed as floor(days/365.2425) years, floor(days/30.4369)-12*years months and the truncated rest, read back with 365.2425 d/year and a twelfth of that per month, week designator for rest days that are a multiple of 7); any other deviation in that range gets its own signature",
 		},
 		Parts: []rig.Part{
 			{Name: "decimals", Cases: func(t rig.Tier) int {
-				n := 5 * (400001 + block - 1) / block
+				n := 5*((400001+block-1)/block) + c19DecimalsExtra(t)
 				if t == rig.Thorough {
 					n += 5 * 100 // strided blocks
 				}
 				return n
 			}, Run: c19Decimals, Procs: 1},
-			{Name: "floats", Cases: func(t rig.Tier) int { return map[rig.Tier]int{rig.Quick: 12, rig.Thorough: 250}[t] }, Run: c19Floats, Procs: 1},
+			{Name: "floats", Cases: func(t rig.Tier) int { return c19FloatsRandom(t) + c19FloatsStruct(t) }, Run: c19Floats, Procs: 1},
 			{Name: "durations", Cases: func(t rig.Tier) int { return map[rig.Tier]int{rig.Quick: 33, rig.Thorough: 123}[t] }, Run: c19Durations, Procs: 1},
 			{Name: "texts", Cases: func(t rig.Tier) int { return map[rig.Tier]int{rig.Quick: 4, rig.Thorough: 40}[t] }, Run: c19Texts, Procs: 1},
-			{Name: "instants", Cases: func(t rig.Tier) int { return map[rig.Tier]int{rig.Quick: 10, rig.Thorough: 100}[t] }, Run: c19Instants, Procs: 1},
-			{Name: "periods", Cases: func(t rig.Tier) int { return map[rig.Tier]int{rig.Quick: 4, rig.Thorough: 40}[t] }, Run: c19Periods, Procs: 1},
+			{Name: "instants", Cases: func(t rig.Tier) int { return map[rig.Tier]int{rig.Quick: 10, rig.Thorough: 100}[t] + 2 }, Run: c19Instants, Procs: 1},
+			{Name: "periods", Cases: func(t rig.Tier) int { return map[rig.Tier]int{rig.Quick: 4, rig.Thorough: 40}[t] + 1 }, Run: c19Periods, Procs: 1},
 		},
 	})
 }
@@ -125,9 +133,17 @@ func c19Decimals(c *rig.Ctx) {
 		}
 		c.Shape(fmt.Sprintf("dense d=%d sign=%v", d, start < 0))
 		c.Sample(map[string]any{"d": d, "k_from": start, "k_to": start + block - 1, "example": fmt.Sprintf("%de-%d", start, d)})
+	} else if extra := c19DecimalsExtra(c.Tier); c.Index < dense+extra {
+		// placed values and the whole magnitude range (c19_landmarks.go); they report their own evidence
+		if i := c.Index - dense; i == 0 {
+			c19DecimalsLandmarks(c)
+		} else {
+			c19DecimalsWide(c, (i-1)%5, block)
+		}
+		return
 	} else {
 		// strided: |k| up to 5*10^7, stride drawn from the case PRNG
-		i := c.Index - dense
+		i := c.Index - dense - extra
 		d := i % 5
 		for j := 0; j < block; j++ {
 			k := c.Rand.Int63n(100000001) - 50000000
@@ -141,7 +157,18 @@ func c19Decimals(c *rig.Ctx) {
 	c.NonTrivial(n >= 1000)
 }
 
+// case counts of the added dimensions (c19_landmarks.go)
+func c19DecimalsExtra(t rig.Tier) int {
+	return map[rig.Tier]int{rig.Quick: 1 + 5, rig.Thorough: 1 + 50}[t]
+}
+func c19FloatsRandom(t rig.Tier) int { return map[rig.Tier]int{rig.Quick: 12, rig.Thorough: 250}[t] }
+func c19FloatsStruct(t rig.Tier) int { return map[rig.Tier]int{rig.Quick: 3, rig.Thorough: 30}[t] }
+
 func c19Floats(c *rig.Ctx) {
+	if c.Index >= c19FloatsRandom(c.Tier) {
+		c19FloatsStructured(c)
+		return
+	}
 	n := 0
 	worst := 0.0
 	decades := map[int]bool{}
@@ -153,13 +180,8 @@ func c19Floats(c *rig.Ctx) {
 		}
 		n++
 		decades[int(math.Floor(mag))] = true
-		s := model.NewScaledNumberType(v)
-		e := math.Abs(s.GetValue() - v)
-		if e > worst {
+		if e := c19CheckFloat(c, v); e > worst {
 			worst = e
-		}
-		if e > 0.0001 {
-			c.Violate("float/error>0.0001", "v=%s -> number=%v scale=%v -> %s (error %g)", strconv.FormatFloat(v, 'g', -1, 64), deref(s.Number), deref(s.Scale), strconv.FormatFloat(s.GetValue(), 'g', -1, 64), e)
 		}
 	}
 	c.Count("floats", int64(n))
@@ -518,6 +540,8 @@ var c19TextTable = []struct {
 	{"PT10000000S", 10000000 * time.Second}, {"PT283115520S", 283115520 * time.Second}, {"PT4718592M", 4718592 * time.Minute},
 	{"P100DT100H100M100S", 100*24*time.Hour + 100*time.Hour + 100*time.Minute + 100*time.Second}, {"-P1000D", -1000 * 24 * time.Hour},
 	{"-PT0.1S", -100 * time.Millisecond}, {"PT1H0.5S", time.Hour + 500*time.Millisecond}, {"P1DT0.1S", 24*time.Hour + 100*time.Millisecond},
+	// every spelling of the zero duration (the value that coincides with the zero value of time.Duration)
+	{"-PT0S", 0}, {"PT0.0S", 0}, {"PT0.000S", 0}, {"P0DT0H0M0S", 0}, {"PT0H", 0}, {"PT0M", 0}, {"PT0H0M", 0}, {"-P0D", 0}, {"P0Y", 0}, {"P0M", 0}, {"P0Y0M0DT0H0M0.0S", 0},
 }
 
 // c19Spell renders d (a multiple of 100 ms, |d| below the class) in one of several valid xs:duration spellings that are
@@ -742,6 +766,13 @@ func c19JudgeInstantText(c *rig.Ctx, kind, text string, tm time.Time) {
 }
 
 func c19Instants(c *rig.Ctx) {
+	if random := map[rig.Tier]int{rig.Quick: 10, rig.Thorough: 100}[c.Tier]; c.Index == random {
+		c19InstantsLandmarks(c)
+		return
+	} else if c.Index > random {
+		c19InstantsCarried(c)
+		return
+	}
 	lo := time.Date(1, 1, 1, 0, 0, 0, 0, time.UTC).Unix()
 	hi := time.Date(9999, 12, 31, 23, 59, 59, 0, time.UTC).Unix()
 	n := 0
@@ -751,23 +782,9 @@ func c19Instants(c *rig.Ctx) {
 		if i%5 == 0 {
 			tm = tm.In(time.FixedZone("x", (c.Rand.Intn(27)-13)*3600))
 		}
-		a := model.NewAbsoluteOrRelativeTimeTypeFromTime(tm)
-		back, err := a.GetTime()
-		if err != nil || !back.Equal(tm) {
-			c.Violate("instant/round-trip", "AbsoluteOrRelativeTimeType %v -> %q -> %v err=%v", tm, string(*a), back, err)
-		}
-		if a.IsRelativeTime() {
-			c.Violate("instant/taken-as-relative", "%q is reported as relative time", string(*a))
-		}
-		c19JudgeInstantText(c, "AbsoluteOrRelativeTimeType", string(*a), tm)
-		d := model.NewDateTimeTypeFromTime(tm)
-		back2, err := d.GetTime()
-		if err != nil || !back2.Equal(tm) {
-			c.Violate("instant/datetime-round-trip", "DateTimeType %v -> %q -> %v err=%v", tm, string(*d), back2, err)
-		}
-		c19JudgeInstantText(c, "DateTimeType", string(*d), tm)
+		text := c19CheckInstant(c, tm)
 		if i == 0 {
-			ex = fmt.Sprintf("%v -> %s", tm, string(*a))
+			ex = fmt.Sprintf("%v -> %s", tm, text)
 		}
 		n++
 	}
@@ -791,7 +808,85 @@ func c19PeriodBounds(d, elMin, elMax time.Duration) (lo, hi time.Duration) {
 	return
 }
 
+// c19PeriodRoundTrip: a time period with the relative end time d through JSON and back; the remaining duration and the
+// text on the wire are judged. A d that is not a whole number of seconds is rounded once more on its way (the end time is
+// an instant with whole seconds), so its lower bound is a second lower.
+func c19PeriodRoundTrip(c *rig.Ctx, d time.Duration) (out model.TimePeriodType, js string, got time.Duration, t0, t1 time.Time, ok bool) {
+	t0 = time.Now()
+	tp := model.NewTimePeriodTypeWithRelativeEndTime(d)
+	b, err := json.Marshal(tp)
+	js = string(b)
+	if err == nil {
+		if err = json.Unmarshal(b, &out); err == nil {
+			got, err = out.GetDuration()
+		}
+	}
+	t1 = time.Now()
+	lo, hi := c19PeriodBounds(d, 0, t1.Sub(t0))
+	if d%time.Second != 0 {
+		lo -= time.Second
+	}
+	if err != nil {
+		c.Violate("period/json-error", "d=%v json=%s err=%v", d, js, err)
+		return
+	} else if got < lo || got > hi {
+		c.Violate("period/remaining-duration", "d=%v json=%s read back %v (accepted [%v, %v], %v passed)", d, js, got, lo, hi, t1.Sub(t0))
+	}
+	// the text on the wire, read by the harness
+	var wire map[string]string
+	if e := json.Unmarshal(b, &wire); e != nil || wire["endTime"] == "" || len(wire) != 1 {
+		c.Violate("period/text/not-a-relative-end-time", "d=%v: the JSON %s is not {\"endTime\":<text>}", d, js)
+	} else {
+		c19JudgeDurationText(c, "period", "TimePeriodType JSON", wire["endTime"], lo, hi)
+	}
+	return out, js, got, t0, t1, true
+}
+
+// c19PeriodsPlaced: the landmark values of the relative end time (zero, the places where the text gains a field or
+// changes its shape, values that are not whole seconds), both signs, and whole seconds next to them.
+func c19PeriodsPlaced(c *rig.Ctx) {
+	n := 0
+	var ex []string
+	for _, abs := range c19PeriodLandmarks() {
+		for _, d := range []time.Duration{abs, -abs} {
+			_, js, got, _, _, ok := c19PeriodRoundTrip(c, d)
+			n++
+			if d == 0 {
+				c.Count("periods_with_zero_remaining_duration", 1)
+			}
+			if d%time.Second != 0 {
+				c.Count("periods_with_a_relative_end_time_that_is_not_whole_seconds", 1)
+			}
+			if ok && len(ex) < 6 && n%9 == 1 {
+				ex = append(ex, fmt.Sprintf("%v -> %s -> %v", d, js, got))
+			}
+		}
+	}
+	// many periods around each landmark, so that the case is not a handful of values
+	lm := c19PeriodLandmarks()
+	for i := 0; i < 1500; i++ {
+		d := lm[c.Rand.Intn(len(lm))].Truncate(time.Second) + time.Duration(c.Rand.Intn(7)-3)*time.Second
+		if c.Rand.Intn(3) == 0 {
+			d = -d
+		}
+		if d >= d27Class || -d >= d27Class { // the known-finding class of the durations part
+			continue
+		}
+		c19PeriodRoundTrip(c, d)
+		n++
+	}
+	c.Count("periods_at_landmarks", int64(n))
+	c.Events(int64(n))
+	c.Shape("periods at landmark values of the relative end time, both signs")
+	c.NonTrivial(n >= 1000)
+	c.Sample(map[string]any{"periods": n, "examples": ex})
+}
+
 func c19Periods(c *rig.Ctx) {
+	if c.Index >= map[rig.Tier]int{rig.Quick: 4, rig.Thorough: 40}[c.Tier] {
+		c19PeriodsPlaced(c)
+		return
+	}
 	n := 0
 	var ex string
 	caseStart := time.Now()
@@ -803,41 +898,24 @@ func c19Periods(c *rig.Ctx) {
 		js           string
 	}
 	var keep []held
+	if c.Index%4 == 0 {
+		// the landmark values (zero first of all) are among those read again later: "remaining" must hold for them too
+		for _, d := range []time.Duration{0, time.Second, -time.Second, 2 * time.Second, 59 * time.Second, time.Minute, time.Hour, 24 * time.Hour, -24 * time.Hour} {
+			if out, js, _, t0, t1, ok := c19PeriodRoundTrip(c, d); ok {
+				keep = append(keep, held{d: d, tp: out, before: t0, done: t1, js: js})
+			}
+			n++
+		}
+	}
 	for i := 0; i < 2000; i++ {
 		d := time.Duration(1+c.Rand.Int63n(3000*24*3600)) * time.Second
 		if i%3 == 1 { // an end time in the past: the remaining duration is negative
 			d = -d
 			c.Count("periods_with_negative_remaining_duration", 1)
 		}
-		t0 := time.Now()
-		tp := model.NewTimePeriodTypeWithRelativeEndTime(d)
-		b, err := json.Marshal(tp)
-		js := string(b)
-		var out model.TimePeriodType
-		var got time.Duration
-		if err == nil {
-			if err = json.Unmarshal(b, &out); err == nil {
-				got, err = out.GetDuration()
-			}
-		}
-		t1 := time.Now()
-		lo, hi := c19PeriodBounds(d, 0, t1.Sub(t0))
-		if err != nil {
-			c.Violate("period/json-error", "d=%v json=%s err=%v", d, js, err)
-		} else if got < lo || got > hi {
-			c.Violate("period/remaining-duration", "d=%v json=%s read back %v (accepted [%v, %v], %v passed)", d, js, got, lo, hi, t1.Sub(t0))
-		}
-		// the text on the wire, read by the harness
-		if err == nil {
-			var wire map[string]string
-			if e := json.Unmarshal(b, &wire); e != nil || wire["endTime"] == "" || len(wire) != 1 {
-				c.Violate("period/text/not-a-relative-end-time", "d=%v: the JSON %s is not {\"endTime\":<text>}", d, js)
-			} else {
-				c19JudgeDurationText(c, "period", "TimePeriodType JSON", wire["endTime"], lo, hi)
-			}
-			if i%50 == 0 {
-				keep = append(keep, held{d: d, tp: out, before: t0, done: t1, js: js})
-			}
+		out, js, got, t0, t1, ok := c19PeriodRoundTrip(c, d)
+		if ok && i%50 == 0 {
+			keep = append(keep, held{d: d, tp: out, before: t0, done: t1, js: js})
 		}
 		if i == 0 {
 			ex = fmt.Sprintf("%v -> %s -> %v", d, js, got)
